@@ -2104,6 +2104,19 @@ def end_exact(r: R, chk, quals: List[str], rule="END-EXACT"):
                 continue
             n += 1
             ok = form[0] != "naive"
+            if ok and form[0] == "lerp" and form[2] is not None:
+                # (1 - t) * A + t * B is B at t = 1: B has to be the upper end (second of a `.limits` unpacking / of the span pair)
+                uppers = set()
+                for a2 in ast.walk(fi.node):
+                    if isinstance(a2, ast.Assign) and len(a2.targets) == 1 and isinstance(a2.targets[0], ast.Tuple) and len(a2.targets[0].elts) == 2 and isinstance(a2.targets[0].elts[1], ast.Name):
+                        uppers.add(a2.targets[0].elts[1].id)
+                    if isinstance(a2, ast.For) and isinstance(a2.target, ast.Tuple) and len(a2.target.elts) == 2 and isinstance(a2.target.elts[1], ast.Name):
+                        uppers.add(a2.target.elts[1].id)
+                if isinstance(form[2], ast.Name) and uppers and form[2].id not in uppers:
+                    chk.ob(rule, f"{q}: `{seg(elt, 40)}` maps the node 1 onto the upper end", False, loc=r.loc(ctx, comp),
+                           detail=f"{q}: `{seg(elt, 50)}` gives `{form[2].id}` at the node 1, which is not the upper end of the interval (one of {sorted(uppers)}): the nodes are spread over the wrong interval — identical to the right one only when the lower end is 0",
+                           func=q, construct=f"closed nodes mapped onto the wrong end: {seg(elt, 40)}")
+                    continue
             chk.ob(rule, f"{q}: `{seg(elt, 40)}` maps the node 1 onto the upper end exactly", ok, loc=r.loc(ctx, comp),
                    detail="" if ok else f"{q}: the nodes of `{it.id}` may be a closed family (0 and 1 included) and are mapped by `{seg(elt, 40)}`: in floating point `lo + (hi - lo) * 1` can exceed `hi` by one ulp (0.3 + (0.9 - 0.3) > 0.9), and the evaluation at that node is refused with ValueError (outside the interval) — the whole operation raises on such an interval; `(1 - t) * lo + t * hi` is exact at both ends",
                    func=q, construct=f"closed nodes mapped by {seg(elt, 40)}")
